@@ -62,6 +62,16 @@ def c12_scenarios(r, tier):
                                           gen_line(1, "DW/x4", 4, 5), gen_line(1, "DW/x5", 3, 5)]))
     for f in ("commitpub:commit:0:2", "commitsig:commit:0:3"):
         out.append(("tampered-commit-reply " + f, [cluster_line(ids), gen_line(1, "DW/x6", 2, 3, f)]))
+    # an earlier attempt committed on one participant only (the others were aborted); a retry under the same name
+    # through another instance must not report success, and whatever is reported as success must be one consistent key
+    for keep in ([3] if tier != "thorough" else [1, 2, 3]):
+        p_ = peer_name(ids, ids[0])
+        acct = "DW/retry%d" % keep
+        others = [i for i in ids if i != keep]
+        lines = [cluster_line(ids)] + [hline("hprepare", i, p_, acct, 2, ids) for i in ids] + [hline("hexecute", i, p_, acct) for i in ids]
+        lines += [hline("hcommit", keep, p_, acct)] + [hline("habort", i, p_, acct) for i in others] + ["holds %s" % hx(acct)]
+        lines += [gen_line(others[0], acct, 2, 3), "holds %s" % hx(acct), "relations %s" % hx(acct)]
+        out.append(("retry-after-partial-commit keep=%d" % keep, lines))
     return out
 
 
@@ -202,6 +212,17 @@ def c17_scenarios(r, tier):
                            [hline("hcommit", i, p, Y), hline("hprepare", i, p, Y, t, ids)]])
         T.append(("staggered-expiry-%d" % k, [hline("hprepare", i, p, X, t, ids), "sleep 1500", hline("hprepare", i, p, Y, t, ids), "sleep 2000", tl] + probe +
                   ["sleep 1600", hline("habort", i, p, Y), hline("habort", i, p, X), "holds %s" % hx(A), "holds %s" % hx(B)]))
+    # prepares for one name arriving at the same moment: exactly one may be accepted (a wide participant list makes
+    # building the own contribution take long enough for the requests to overlap)
+    for k in range(2 if tier != "thorough" else 10):
+        rr = r.fork()
+        i = rr.choice(ids)
+        wide = list(range(1, 30 + rr.below(30)))
+        tw = len(wide) // 2 + 1
+        T.append(("concurrent-prepare-%d" % k, ["cprepare %d %s %s %d %d %s" % (i, hx(p), hx(A), 6 + rr.below(8), tw, ",".join(str(x) for x in wide)),
+                                                 hline("hprepare", i, p, A, t, ids), hline("habort", i, p, A), hline("habort", i, p, A),
+                                                 "cprepare %d %s %s %d %d %s" % (i, hx(p), hx(B), 4, t, ",".join(str(x) for x in ids)),
+                                                 hline("habort", i, p, B), "holds %s" % hx(A), "holds %s" % hx(B)]))
     ids4 = [1, 2, 3, 5]
     q = "signer-test01"
     T.append(("unlisted-contributor", "ids4", [hline("hprepare", 3, q, A, 2, [1, 3, 5]), hline("hprepare", 1, q, A, 2, [1, 3, 5]), hline("hprepare", 5, q, A, 2, [1, 3, 5]),
@@ -293,7 +314,9 @@ def c14_scenarios(r, tier):
     for (n, t) in nts:
         ids = list(range(1, n + 1)) if (n + t) % 2 == 0 else [3 * i + 2 for i in range(n)]
         acct = "DW/q%d_%d" % (n, t)
-        lines = [cluster_line(ids), gen_line(ids[r.below(n)], acct, t, n)]
+        acct2 = acct + "b"
+        lines = [cluster_line(ids), gen_line(ids[r.below(n)], acct, t, n), gen_line(ids[r.below(n)], acct2, t, n)]
+        low = {i: 0 for i in ids}      # the second account attests low epochs, advancing per instance
         pairs = []
         for j in range(npairs):
             base = 10 * (j + 1)
@@ -320,7 +343,12 @@ def c14_scenarios(r, tier):
                 (i1 if which == 1 else i2).append(len(lines))
                 # attestations reach an instance through either endpoint (single, or a batch of one)
                 opn = "iatts" if d[0] == "iatt" and r.chance(0.5) else d[0]
-                lines.append("%s %d %s %s" % (opn, i, hx(acct), d[1]))
+                if opn == "iatts" and r.chance(0.5):
+                    # the duty shares its batch with another account's attestation at much lower epochs
+                    low[i] += 1
+                    lines.append("iatts2 %d %s %s %s %s" % (i, hx(acct), d[1], hx(acct2), att9(low[i], low[i] + 1, 2)))
+                else:
+                    lines.append("%s %d %s %s" % (opn, i, hx(acct), d[1]))
             pairs.append((kind, d1, d2, i1, i2))
         out.append(("n=%d t=%d" % (n, t), n, t, acct, lines, pairs))
     return out
